@@ -69,6 +69,3 @@ func specLemmaObligations(r *Runner) []*LedgerEntry {
 	return out
 }
 
-func concreteReplay(eng *Engine, p *Property, e *LedgerEntry, fp *FuncProof, base string) (replayTest, bool) {
-	return replayTest{}, false
-}
